@@ -11,14 +11,15 @@ from harness import common as C
 from harness import schema_xml as X
 
 PROP = "C03"
-# 1 (default): /repo contains the two repairs (fix-F1: walk over the text as written; fix-F2: never step onto a '#'
+# 1 (default): /repo contains the two repairs (fix commit de8c862 = fix-F1: walk over the text as written; fix commit
+# 03a83bd = fix-F2: never step onto a '#'
 # placeholder) -- the repaired model is compared and the oracle demands the full statement.
 # 0: the code before the repairs, against the unrepaired model; the two historical finding classes are tolerated.
 FIXED = int(os.environ.get("VERIF_C03_FIXED", "1"))
 HISTORICAL = {
-    "C03-F1": "(repaired) a spelling through a code point whose str.casefold() is longer than one code point "
+    "C03-F1": "(repaired by fix commit de8c862) a spelling through a code point whose str.casefold() is longer than one code point "
               "('Preß/abc') had its extension cut at an index of the folded text: short_tag 'Pressabc'",
-    "C03-F2": "(repaired) 'Duration/#/#/more': the walk stepped onto the '#' placeholder, so short(short(t)) != short(t)",
+    "C03-F2": "(repaired by fix commit 03a83bd) 'Duration/#/#/more': the walk stepped onto the '#' placeholder, so short(short(t)) != short(t)",
 }
 COQ_TARGETS = ["Props/C03.vo", "Extract/ExtractC03.vo"]
 DRIVERS = ["c03"]
@@ -46,6 +47,12 @@ TRUSTED = [
     "takes_value_child_entry are not modelled; the registration order and names come from T4",
 ]
 ASSUMPTIONS = [
+    "by construction of the model, not proved of the implementation: a lookup leaves the model's table untouched and "
+    "reading/copying a HedTag is an identity step (the code in /repo has no memo or cached forms); C03_tag_reads_invisible "
+    "and the lookup half of C03_schema_history only record this shape.  Proved: C03_merge_incremental (merging into an "
+    "existing table = building from scratch).  That the implementation has no stale state is tested by the history runs",
+    "generated schemas: WFschema is evaluated by the extracted model in the harness, not in the kernel (kernel "
+    "evaluation: the 11 bundled vocabularies; premises of C03_remainder_verbatim: C03_remainder_verbatim_premises_met)",
     "schema configurations (load_schema_version: namespaced, merged under one prefix, merged un-prefixed, groups) are "
     "compared member by member with the model on the merged name list predicted from T4 (first library entirely, then "
     "the inLibrary nodes of the others); which combinations are mergeable is predicted from T4 (same withStandard, no "
@@ -59,7 +66,8 @@ ASSUMPTIONS = [
     "generated schemas with duplicate (case-insensitively equal) tag names load without error but are not well "
     "formed: on them only model-vs-implementation agreement is checked, not the statement's equations",
     "theorems are for all schemas with WFschema = true (checked in the kernel for the 11 bundled vocabularies) and "
-    "all texts, for the code with the two repairs (fix-F1, fix-F2); the behaviour before them is kept as "
+    "all texts, for the code as it is in /repo, i.e. with fix commits de8c862 (C03-F1) and 03a83bd (C03-F2); the "
+    "behaviour before these commits is kept, labelled as such, as "
     "*_before_*_fix / *_refuted_before_*_fix theorems",
     "HedString.get_as_short/get_as_long and df_util.convert_to_form are checked on the implementation only (testing)",
 ]
@@ -821,7 +829,7 @@ def _run(tier, seed, res, rng, model_ok, proof_ok):
     add_group(("file", "8_3_0", A["8_3_0"]["file"]), "", v83, True, corpus, 1)
 
     # bundled vocabularies: every tag x every suffix spelling x case x extension kind x prefix
-    model_combos = (1.0 if quick else 1.5)
+    model_combos = (1.0 if quick else 0.75)
     for k in keys:
         for ns in ("", "ts:"):
             # quick: the full cross product without prefix, a third of the combinations with prefix
@@ -849,7 +857,7 @@ def _run(tier, seed, res, rng, model_ok, proof_ok):
                 for c in cases:
                     if py_namespace(c["text"]) != ns:
                         c.pop("exp", None)
-            add_group(spec, ns, voc, True, cases, 1 if wide else (0.08 if quick else 0.12), dispatch=len(members) > 1)
+            add_group(spec, ns, voc, True, cases, 1 if wide else 0.08, dispatch=len(members) > 1)
 
     # generated schemas: small trees with name collisions by suffix and by case, '#' children
     n_gen = (100 if quick else 1500) * (3 if wide else 1)
